@@ -5,7 +5,10 @@
 //! `[T; N]` forms) and on a real `Vec<Color<T>>`.  Oracle = the property's own predicate: the same observation after
 //! every operation (items, `None`s, panics, lengths), all component collections of one length equal to the vector's
 //! after every operation.  The same history with the struct-of-arrays observations is written as one protocol line;
-//! the Lean driver replays it through the column model (and the list reference) and compares every observation.
+//! the Lean driver replays it through the column model (and the list reference, and for `Alpha` the nested
+//! colour-collection + alpha-vector model) and compares every observation.
+//! Iterator scripts also observe `size_hint()` (`h`) and `count()` (`c`, last step only: it consumes the iterator);
+//! `forget` is a drain whose iterator is leaked with `mem::forget` (the range and the tail are lost in every column).
 use crate::common::*;
 use palette::cam16::{Cam16Jch, Cam16Jmh, Cam16Jsh, Cam16Qch, Cam16Qmh, Cam16Qsh, Cam16UcsJab, Cam16UcsJmh};
 use palette::encoding::Srgb;
@@ -23,7 +26,11 @@ pub type Row = Vec<u64>;
 #[derive(Clone, Copy, Debug, PartialEq)]
 pub enum Rg { R(usize, usize), F(usize), T(usize), U, I(usize, usize), TI(usize) }
 #[derive(Clone, Debug, PartialEq)]
-pub enum St { N, B, L, NW(Row), BW(Row) }
+pub enum St { N, B, L, NW(Row), BW(Row),
+    /// `size_hint()`
+    H,
+    /// `count()`: consumes the iterator, so generated scripts have it last (and never inside a `Forget`)
+    C }
 #[derive(Clone, Copy, Debug, PartialEq)]
 pub enum Form { V, Slice, MutSlice, Boxed, Arr }
 #[derive(Clone, Debug, PartialEq)]
@@ -31,9 +38,11 @@ pub enum Op {
     Push(Row), Pop, Extend(Vec<Row>), Collect(Vec<Row>), New(usize), Clear,
     Drain(Rg, Vec<St>), Get(usize, Form), GetR(Rg, Vec<St>, Form), GetM(usize, Row, Form), GetMR(Rg, Vec<St>, Form),
     Iter(Vec<St>, Form), IterM(Vec<St>, Form), Rev(Form), Into(Form), Len,
+    /// `let mut d = v.drain(range); script; mem::forget(d)` (leak amplification: the range and the tail are lost)
+    Forget(Rg, Vec<St>),
 }
 #[derive(Clone, Debug, PartialEq)]
-pub enum SOb { Item(Option<Row>), Len(usize) }
+pub enum SOb { Item(Option<Row>), Len(usize), Hint(usize, Option<usize>), Count(usize) }
 #[derive(Clone, Debug, PartialEq)]
 pub enum Ob { Unit, Item(Option<Row>), Steps(Vec<SOb>), NoSlice, Panic, Lens(usize, Vec<usize>) }
 
@@ -53,22 +62,44 @@ macro_rules! with_range {
 }
 /// run a script on an iterator whose items are read with `$conv`
 macro_rules! read_script {
+    ($it:expr, $sc:expr, $conv:expr) => {{ let mut slot = Some($it); let mut out: Vec<SOb> = vec![];
+        for s in $sc.iter() {
+            if let St::C = s { if let Some(it) = slot.take() { out.push(SOb::Count(it.count())); } break; }
+            let it = match slot.as_mut() { Some(it) => it, None => break };
+            out.push(match s {
+            St::N | St::NW(_) => SOb::Item(it.next().map($conv)),
+            St::B | St::BW(_) => SOb::Item(it.next_back().map($conv)),
+            St::L => SOb::Len(it.len()),
+            St::H => { let (lo, hi) = it.size_hint(); SOb::Hint(lo, hi) }
+            St::C => unreachable!() }); }
+        out }};
+}
+/// the same, but the iterator is leaked with `mem::forget` instead of being dropped (a `count()` would consume it: not generated here)
+macro_rules! forget_script {
     ($it:expr, $sc:expr, $conv:expr) => {{ let mut it = $it; let mut out: Vec<SOb> = vec![];
         for s in $sc.iter() { out.push(match s {
             St::N | St::NW(_) => SOb::Item(it.next().map($conv)),
             St::B | St::BW(_) => SOb::Item(it.next_back().map($conv)),
-            St::L => SOb::Len(it.len()) }); }
+            St::L => SOb::Len(it.len()),
+            St::H => { let (lo, hi) = it.size_hint(); SOb::Hint(lo, hi) }
+            St::C => break }); }
+        std::mem::forget(it);
         out }};
 }
 /// run a script on an iterator of `Color<&mut T>`: read the old value, write the new one
 macro_rules! write_script {
-    ($it:expr, $sc:expr) => {{ let mut it = $it; let mut out: Vec<SOb> = vec![];
-        for s in $sc.iter() { out.push(match s {
+    ($it:expr, $sc:expr) => {{ let mut slot = Some($it); let mut out: Vec<SOb> = vec![];
+        for s in $sc.iter() {
+            if let St::C = s { if let Some(it) = slot.take() { out.push(SOb::Count(it.count())); } break; }
+            let it = match slot.as_mut() { Some(it) => it, None => break };
+            out.push(match s {
             St::N => SOb::Item(it.next().map(|c| row_of(&c.copied()))),
             St::B => SOb::Item(it.next_back().map(|c| row_of(&c.copied()))),
             St::NW(w) => SOb::Item(it.next().map(|mut c| { let old = row_of(&c.copied()); c.set(mk(w)); old })),
             St::BW(w) => SOb::Item(it.next_back().map(|mut c| { let old = row_of(&c.copied()); c.set(mk(w)); old })),
-            St::L => SOb::Len(it.len()) }); }
+            St::L => SOb::Len(it.len()),
+            St::H => { let (lo, hi) = it.size_hint(); SOb::Hint(lo, hi) }
+            St::C => unreachable!() }); }
         out }};
 }
 macro_rules! until_none {
@@ -158,6 +189,10 @@ macro_rules! interp {
                         _ => until_none!(v.clone().into_iter(), |c| row_of(&c)),
                     }),
                     Op::Len => Ob::Lens(v.iter().len(), col_lens(&v)),
+                    Op::Forget(rg, sc) => {
+                        let res = catch_unwind(AssertUnwindSafe(|| { let d = with_range!(*rg, r => v.drain(r)); forget_script!(d, sc, |c| row_of(&c)) }));
+                        match res { Ok(s) => Ob::Steps(s), Err(_) => Ob::Panic }
+                    }
                 };
                 obs.push(ob); lens.push(col_lens(&v));
             }
@@ -171,12 +206,17 @@ macro_rules! interp {
 pub fn run_vec<I: Copy>(ops: &[Op], k: usize, mk: fn(&Row) -> I, row_of: fn(&I) -> Row) -> Trace {
     let mut v: Vec<I> = Vec::with_capacity(0);
     let mut obs: Vec<Ob> = vec![]; let mut lens: Vec<Vec<usize>> = vec![];
-    macro_rules! wscript { ($it:expr, $sc:expr) => {{ let mut it = $it; let mut out: Vec<SOb> = vec![];
-        for s in $sc.iter() { out.push(match s {
+    macro_rules! wscript { ($it:expr, $sc:expr) => {{ let mut slot = Some($it); let mut out: Vec<SOb> = vec![];
+        for s in $sc.iter() {
+            if let St::C = s { if let Some(it) = slot.take() { out.push(SOb::Count(it.count())); } break; }
+            let it = match slot.as_mut() { Some(it) => it, None => break };
+            out.push(match s {
             St::N => SOb::Item(it.next().map(|c| row_of(c))), St::B => SOb::Item(it.next_back().map(|c| row_of(c))),
             St::NW(w) => SOb::Item(it.next().map(|c| { let old = row_of(c); *c = mk(w); old })),
             St::BW(w) => SOb::Item(it.next_back().map(|c| { let old = row_of(c); *c = mk(w); old })),
-            St::L => SOb::Len(it.len()) }); }
+            St::L => SOb::Len(it.len()),
+            St::H => { let (lo, hi) = it.size_hint(); SOb::Hint(lo, hi) }
+            St::C => unreachable!() }); }
         out }}; }
     for op in ops {
         let ob = match op {
@@ -199,6 +239,10 @@ pub fn run_vec<I: Copy>(ops: &[Op], k: usize, mk: fn(&Row) -> I, row_of: fn(&I) 
             Op::Rev(_) => Ob::Steps(until_none!(v.iter().rev(), row_of)),
             Op::Into(_) => Ob::Steps(until_none!(v.clone().into_iter(), |c| row_of(&c))),
             Op::Len => Ob::Lens(v.iter().len(), vec![v.len(); k]),
+            Op::Forget(rg, sc) => {
+                let res = catch_unwind(AssertUnwindSafe(|| { let d = with_range!(*rg, r => v.drain(r)); forget_script!(d, sc, |c| row_of(&c)) }));
+                match res { Ok(s) => Ob::Steps(s), Err(_) => Ob::Panic }
+            }
         };
         obs.push(ob); lens.push(vec![v.len(); k]);
     }
@@ -314,7 +358,7 @@ fn row_txt(ty: &str, r: &Row, s: &mut String) { for x in r { s.push(' '); s.push
 fn rg_txt(rg: &Rg) -> String { match rg { Rg::R(a, b) => format!("r {} {}", a, b), Rg::F(a) => format!("f {}", a), Rg::T(b) => format!("t {}", b), Rg::U => "u".into(), Rg::I(a, b) => format!("i {} {}", a, b), Rg::TI(b) => format!("ti {}", b) } }
 fn script_txt(ty: &str, sc: &[St], s: &mut String) {
     s.push_str(&format!(" {}", sc.len()));
-    for st in sc { match st { St::N => s.push_str(" n"), St::B => s.push_str(" b"), St::L => s.push_str(" l"),
+    for st in sc { match st { St::N => s.push_str(" n"), St::B => s.push_str(" b"), St::L => s.push_str(" l"), St::H => s.push_str(" h"), St::C => s.push_str(" c"),
         St::NW(w) => { s.push_str(" N"); row_txt(ty, w, s); } St::BW(w) => { s.push_str(" B"); row_txt(ty, w, s); } } }
 }
 fn form_txt(f: Form) -> &'static str { match f { Form::V => "@vec", Form::Slice => "@slice", Form::MutSlice => "@mutslice", Form::Boxed => "@box", Form::Arr => "@arr" } }
@@ -337,6 +381,7 @@ pub fn op_txt(ty: &str, op: &Op, s: &mut String) {
         Op::Rev(f) => s.push_str(&format!("rev{}", form_txt(*f))),
         Op::Into(f) => s.push_str(&format!("into{}", form_txt(*f))),
         Op::Len => s.push_str("len"),
+        Op::Forget(rg, sc) => { s.push_str(&format!("forget {}", rg_txt(rg))); script_txt(ty, sc, s); }
     }
 }
 fn item_txt(ty: &str, o: &Option<Row>, s: &mut String) { match o { None => s.push_str(" Z"), Some(r) => { s.push_str(" S"); row_txt(ty, r, s); } } }
@@ -344,7 +389,8 @@ pub fn ob_txt(ty: &str, ob: &Ob, s: &mut String) {
     match ob {
         Ob::Unit => s.push_str(" u"),
         Ob::Item(o) => item_txt(ty, o, s),
-        Ob::Steps(l) => { s.push_str(&format!(" T {}", l.len())); for x in l { match x { SOb::Item(o) => item_txt(ty, o, s), SOb::Len(n) => s.push_str(&format!(" # {}", n)) } } }
+        Ob::Steps(l) => { s.push_str(&format!(" T {}", l.len())); for x in l { match x { SOb::Item(o) => item_txt(ty, o, s), SOb::Len(n) => s.push_str(&format!(" # {}", n)),
+            SOb::Hint(lo, hi) => s.push_str(&format!(" H {} {}", lo, hi.map_or("-".to_string(), |h| h.to_string()))), SOb::Count(n) => s.push_str(&format!(" C {}", n)) } } }
         Ob::NoSlice => s.push_str(" N"),
         Ob::Panic => s.push_str(" P"),
         Ob::Lens(n, cols) => { s.push_str(&format!(" Ln {}", n)); for c in cols { s.push_str(&format!(" {}", c)); } }
@@ -387,15 +433,18 @@ impl Gen {
                      else { let (a, b) = (self.bound(len), self.bound(len)); if a > b && self.rng.below(3) != 0 { (b, a) } else { (a, b) } };
         match self.rng.below(9) { 0 | 1 | 2 => Rg::R(a, b), 3 => Rg::F(a), 4 => Rg::T(b), 5 => Rg::U, 6 | 7 => Rg::I(a, if b > 0 && self.rng.below(2) == 0 { b - 1 } else { b }), _ => Rg::TI(b) }
     }
-    fn script(&mut self, width: usize, write: bool) -> Vec<St> {
+    /// `count`: whether the script may end in a `count()` (which consumes the iterator)
+    fn script(&mut self, width: usize, write: bool, count: bool) -> Vec<St> {
         let n = match self.rng.below(8) { 0 => 0, 1 => width + 1, 2 => width + 3, 3 => 1, _ => self.rng.below(width as u64 + 3) as usize };
         let mode = self.rng.below(4); // 0: forward, 1: backward, 2/3: mixed
-        (0..n).map(|_| {
+        let mut sc: Vec<St> = (0..n).map(|_| {
             let back = match mode { 0 => false, 1 => true, _ => self.rng.below(2) == 0 };
-            if self.rng.below(7) == 0 { St::L }
-            else if write && self.rng.below(3) != 0 { let w = self.row(); if back { St::BW(w) } else { St::NW(w) } }
+            match self.rng.below(14) { 0 | 1 => return St::L, 2 | 3 => return St::H, _ => {} }
+            if write && self.rng.below(3) != 0 { let w = self.row(); if back { St::BW(w) } else { St::NW(w) } }
             else if back { St::B } else { St::N }
-        }).collect()
+        }).collect();
+        if count && self.rng.below(4) == 0 { sc.push(St::C); }
+        sc
     }
     fn form(&mut self, len: usize, allowed: &[Form]) -> Form {
         if len == 3 && allowed.contains(&Form::Arr) && self.rng.below(3) == 0 { return Form::Arr; }
@@ -413,13 +462,14 @@ impl Gen {
             34..=35 => { let rs = self.rows(8); let n = rs.len(); (Op::Collect(rs), n) }
             36 => if self.rng.below(2) == 0 { (Op::New(self.rng.below(20) as usize), 0) } else { (Op::Clear, 0) },
             37 => (Op::Len, len),
-            38..=49 => { let rg = self.range(len); let r = resolve(len, rg); let sc = self.script(width(r), false); (Op::Drain(rg, sc), r.map_or(len, |(a, b)| len - (b - a))) }
+            38..=46 => { let rg = self.range(len); let r = resolve(len, rg); let sc = self.script(width(r), false, true); (Op::Drain(rg, sc), r.map_or(len, |(a, b)| len - (b - a))) }
+            47..=49 => { let rg = self.range(len); let r = resolve(len, rg); let sc = self.script(width(r), false, false); (Op::Forget(rg, sc), r.map_or(len, |(a, _)| a)) }
             50..=57 => { let f = self.form(len, &[V, V, Slice, MutSlice, Boxed, Arr]); (Op::Get(self.index(len), f), len) }
-            58..=64 => { let rg = self.range(len); let sc = self.script(width(resolve(len, rg)), false); let f = self.form(len, &[V, V, Slice, Boxed, Arr]); (Op::GetR(rg, sc, f), len) }
+            58..=64 => { let rg = self.range(len); let sc = self.script(width(resolve(len, rg)), false, true); let f = self.form(len, &[V, V, Slice, Boxed, Arr]); (Op::GetR(rg, sc, f), len) }
             65..=71 => { let f = self.form(len, &[V, V, MutSlice, Boxed, Arr]); (Op::GetM(self.index(len), self.row(), f), len) }
-            72..=77 => { let rg = self.range(len); let sc = self.script(width(resolve(len, rg)), true); let f = self.form(len, &[V, V, MutSlice, Boxed, Arr]); (Op::GetMR(rg, sc, f), len) }
-            78..=83 => { let sc = self.script(len, false); let f = self.form(len, &[V, V, Slice, MutSlice, Boxed, Arr]); (Op::Iter(sc, f), len) }
-            84..=89 => { let sc = self.script(len, true); let f = self.form(len, &[V, V, MutSlice, Boxed, Arr]); (Op::IterM(sc, f), len) }
+            72..=77 => { let rg = self.range(len); let sc = self.script(width(resolve(len, rg)), true, true); let f = self.form(len, &[V, V, MutSlice, Boxed, Arr]); (Op::GetMR(rg, sc, f), len) }
+            78..=83 => { let sc = self.script(len, false, true); let f = self.form(len, &[V, V, Slice, MutSlice, Boxed, Arr]); (Op::Iter(sc, f), len) }
+            84..=89 => { let sc = self.script(len, true, true); let f = self.form(len, &[V, V, MutSlice, Boxed, Arr]); (Op::IterM(sc, f), len) }
             90..=92 => (Op::Rev(self.form(len, &[V, Slice, Boxed, Arr])), len),
             93..=95 => (Op::Into(self.form(len, &[V, Slice, MutSlice, Arr])), len),
             _ => (Op::Len, len),
@@ -442,6 +492,18 @@ fn structured(g: &mut Gen) -> Vec<Vec<Op>> {
     for (rg, sc) in [(Rg::R(1, 4), vec![St::N]), (Rg::R(1, 4), vec![]), (Rg::I(0, 2), vec![St::B, St::L]), (Rg::F(2), vec![St::N, St::B, St::N, St::N, St::N]), (Rg::U, vec![St::L, St::N]), (Rg::TI(4), vec![St::B]), (Rg::T(0), vec![St::N])] {
         hs.push(vec![fill(g, 5), Op::Drain(rg, sc), Op::Len, Op::Push(g.row()), Op::Len, Op::Rev(V), Op::Into(V)]);
     }
+    // size_hint / len / count after every mixture of next / next_back, on every kind of iterator
+    for sc in [vec![St::H, St::L, St::C], vec![St::N, St::H, St::B, St::H, St::L, St::C], vec![St::B, St::B, St::H, St::N, St::N, St::H, St::N, St::H, St::C],
+               vec![St::N, St::N, St::N, St::N, St::N, St::H, St::N, St::H, St::B, St::L, St::C], vec![St::H]] {
+        let wsc: Vec<St> = sc.iter().map(|s| match s { St::N => St::NW(g.row()), St::B => St::BW(g.row()), x => x.clone() }).collect();
+        hs.push(vec![fill(g, 4), Op::Iter(sc.clone(), V), Op::Iter(sc.clone(), Slice), Op::Iter(sc.clone(), Boxed), Op::IterM(wsc.clone(), V), Op::IterM(wsc.clone(), MutSlice),
+                     Op::GetR(Rg::R(1, 4), sc.clone(), V), Op::GetMR(Rg::F(1), wsc, V), Op::Into(V), Op::Drain(Rg::R(0, 3), sc.clone()), Op::Len, Op::Into(V)]);
+    }
+    // a leaked (mem::forget) drain: the range and the tail are lost, every column alike; then the collection is used on
+    for (rg, sc) in [(Rg::R(1, 3), vec![St::N]), (Rg::R(1, 3), vec![]), (Rg::U, vec![St::H, St::N, St::B]), (Rg::F(5), vec![St::N]), (Rg::T(0), vec![]), (Rg::I(2, 4), vec![St::B, St::B, St::B, St::B, St::L]),
+                     (Rg::R(3, 2), vec![St::N]), (Rg::T(6), vec![]), (Rg::TI(usize::MAX), vec![])] {
+        hs.push(vec![fill(g, 5), Op::Forget(rg, sc), Op::Len, Op::Into(V), Op::Push(g.row()), Op::Len, Op::Rev(V), Op::Pop, Op::Into(V)]);
+    }
     // every range kind around every edge, for drain, get and get_mut
     for n in [0usize, 1, 3] {
         let mut edges = vec![0usize, 1, n, n + 1, n.saturating_sub(1), usize::MAX, usize::MAX - 1]; edges.sort(); edges.dedup();
@@ -455,6 +517,9 @@ fn structured(g: &mut Gen) -> Vec<Vec<Op>> {
                 h.push(Op::GetMR(*rg, vec![St::NW(g.row()), St::L, St::BW(g.row()), St::N], if n == 3 { Arr } else { MutSlice }));
                 h.push(Op::Into(V));
                 h.push(Op::Drain(*rg, vec![St::N, St::L]));
+                h.push(Op::Len); h.push(Op::Into(V));
+                h.push(Op::Collect((0..n).map(|_| g.row()).collect()));
+                h.push(Op::Forget(*rg, vec![St::H, St::B]));
                 h.push(Op::Len); h.push(Op::Into(V));
             }
             hs.push(h);
@@ -479,10 +544,11 @@ fn structured(g: &mut Gen) -> Vec<Vec<Op>> {
 fn alphabet(g: &mut Gen) -> Vec<Op> {
     use Form::*;
     vec![Op::Push(g.row()), Op::Push(g.row()), Op::Pop, Op::Extend(vec![g.row(), g.row()]), Op::Clear, Op::Collect(vec![g.row()]),
-         Op::Drain(Rg::R(0, 1), vec![]), Op::Drain(Rg::R(1, 2), vec![St::N]), Op::Drain(Rg::F(1), vec![St::B]), Op::Drain(Rg::I(1, 0), vec![St::N]), Op::Drain(Rg::R(2, 1), vec![]), Op::Drain(Rg::TI(1), vec![St::L, St::N]),
+         Op::Drain(Rg::R(0, 1), vec![]), Op::Drain(Rg::R(1, 2), vec![St::N]), Op::Drain(Rg::F(1), vec![St::B]), Op::Drain(Rg::I(1, 0), vec![St::N]), Op::Drain(Rg::R(2, 1), vec![]), Op::Drain(Rg::TI(1), vec![St::L, St::N, St::C]),
          Op::Get(0, V), Op::Get(1, Slice), Op::GetM(0, g.row(), V), Op::GetM(1, g.row(), MutSlice),
          Op::GetR(Rg::R(0, 2), vec![St::N, St::B], V), Op::GetMR(Rg::F(1), vec![St::BW(g.row())], V),
-         Op::Iter(vec![St::B, St::N, St::L], V), Op::IterM(vec![St::NW(g.row()), St::BW(g.row())], V), Op::Rev(V)]
+         Op::Iter(vec![St::B, St::H, St::N, St::L, St::C], V), Op::IterM(vec![St::NW(g.row()), St::BW(g.row()), St::H], V), Op::Rev(V),
+         Op::Forget(Rg::R(1, 2), vec![St::N])]
 }
 
 // ------------------------------------------------------------------------------------------------ oracle
@@ -520,7 +586,7 @@ fn shrink(cfg: &Cfg, ops: &[Op]) -> Vec<Op> {
             loop {
                 let mut cand = cur.clone();
                 let shorter = match &mut cand[i] {
-                    Op::Drain(_, sc) | Op::GetR(_, sc, _) | Op::GetMR(_, sc, _) | Op::Iter(sc, _) | Op::IterM(sc, _) => sc.pop().is_some(),
+                    Op::Drain(_, sc) | Op::Forget(_, sc) | Op::GetR(_, sc, _) | Op::GetMR(_, sc, _) | Op::Iter(sc, _) | Op::IterM(sc, _) => sc.pop().is_some(),
                     Op::Extend(rs) | Op::Collect(rs) => rs.pop().is_some(),
                     _ => false };
                 if shorter && violated(cfg, &cand).is_some() { cur = cand; progressed = true; } else { break; }
@@ -535,10 +601,11 @@ fn classify(out: &mut Out, ops: &[Op], tr: &Trace) {
     for (op, ob) in ops.iter().zip(tr.obs.iter()) {
         let name = match op { Op::Push(_) => "push", Op::Pop => "pop", Op::Extend(_) => "extend", Op::Collect(_) => "collect", Op::New(_) => "with_capacity", Op::Clear => "clear",
             Op::Drain(..) => "drain", Op::Get(..) => "get", Op::GetR(..) => "get-range", Op::GetM(..) => "get_mut", Op::GetMR(..) => "get_mut-range", Op::Iter(..) => "iter",
-            Op::IterM(..) => "iter_mut", Op::Rev(_) => "rev", Op::Into(_) => "into_iter", Op::Len => "len" };
+            Op::IterM(..) => "iter_mut", Op::Rev(_) => "rev", Op::Into(_) => "into_iter", Op::Len => "len", Op::Forget(..) => "forget-drain" };
         let outcome = match ob { Ob::Unit => "", Ob::Item(None) => ":none", Ob::Item(Some(_)) => ":some", Ob::NoSlice => ":none", Ob::Panic => ":panic", Ob::Lens(..) => "",
             Ob::Steps(l) => if l.is_empty() { ":unconsumed" } else if matches!(l.last(), Some(SOb::Item(None))) { ":exhausted" } else { ":partial" } };
         out.count(&format!("cls:{}{}", name, outcome));
+        if let Ob::Steps(l) = ob { for x in l { match x { SOb::Hint(..) => out.count("cls:size_hint"), SOb::Count(_) => out.count("cls:count"), SOb::Len(_) => out.count("cls:iter-len"), _ => {} } } }
         match op { Op::Get(_, f) | Op::GetR(_, _, f) | Op::GetM(_, _, f) | Op::GetMR(_, _, f) | Op::Iter(_, f) | Op::IterM(_, f) | Op::Rev(f) | Op::Into(f) => out.count(&format!("cls:form{}", form_txt(*f))), _ => {} }
     }
 }
@@ -614,6 +681,6 @@ pub fn run(tier: &str, seed: u64, dir: &str) {
             }
         }
     }
-    let extra = format!("\"exhaustive\":{{\"bounded_histories_enumerated\":{},\"alphabet\":21,\"max_length\":{}}}", n_enum, depth);
+    let extra = format!("\"exhaustive\":{{\"bounded_histories_enumerated\":{},\"alphabet\":22,\"max_length\":{}}}", n_enum, depth);
     out.finish(dir, &extra);
 }
